@@ -50,3 +50,6 @@ pub fn validate_utf8_avx2(input: &[u8]) -> Option<bool> {
 #[cfg(all(target_arch = "x86_64", not(feature = "scalar-yaml"), feature = "std"))]
 pub use crate::util::simd::escape::verif_json_escape_tier;
 pub use crate::util::simd::escape::find_json_escape;
+// C10 — number printing.
+pub use crate::jq::verif_normalize_extreme_literal_mantissa;
+pub use crate::yaml::{verif_needs_explicit_float_tag, verif_write_i64};
